@@ -218,6 +218,22 @@ def build_repo_bins():
     return 0
 
 
+def c11_cli_train(tier, seed):
+    """C11 at the tool level: the real `train` binary on generated corpora, dictionaries and tag dictionaries written to files"""
+    r = subprocess.run([HARNESS, "c11cli", tier, str(seed)], capture_output=True, text=True, env=ENV)
+    m = re.search(r"cli_train runs=(\d+) models_written=(\d+) failures=(\d+)", r.stdout)
+    out = {"name": "cli_train", "evaluations": int(m.group(1)) if m else 0, "failures": [], "suspicions": [],
+           "note": (f"train tool: {m.group(1)} runs, {m.group(2)} models written; " if m else "") +
+                   "success/failure agrees with the library on the same data, no panic, the written model passes the C11 oracle, has the requested windows and only dictionary-file words"}
+    if r.returncode != 0 or m is None:
+        out["failures"].append({"what": "the train tool run crashed", "stderr": r.stderr[-500:]})
+    for f in [l for l in r.stdout.splitlines() if l.startswith("FAIL")][:3]:
+        out["failures"].append({"what": "the train tool's result is not what C11 promises for the library on the same data", "detail": f[:2500]})
+    if m:
+        out["distinct_nontrivial"] = int(m.group(2))
+    return out
+
+
 def c17_cli_convert(tier, seed):
     """C17 glue: the real convert_kytea_model tool on generated KyTea files (whole and truncated): the written model equals the
     library conversion and the model the file encodes; truncated files make the tool fail without a panic"""
